@@ -301,3 +301,15 @@ mutant("c16-f3-revert", "C16", "C16.table.seq-count", COMP, "128..=0x7EFF => {",
 mutant("c16-new-panic-on-matcher-path", "C16", "C16.inventory.panics", COMP, "                literals_vec.extend_from_slice(literals);\n                sequences.push(", "                literals_vec.extend_from_slice(literals);\n                assert!(match_len >= 5);\n                sequences.push(")
 mutant("c16-builtin-special-case", "C16", "C16.", COMP, "                    ml: match_len as u32,", "                    ml: (match_len as u32).max(5),")
 mutant("c16-new-with-matcher-private", "C16", "C16.api", FCOMP, "    pub fn new_with_matcher(matcher: M, compression_level: CompressionLevel) -> Self {", "    pub(crate) fn new_with_matcher(matcher: M, compression_level: CompressionLevel) -> Self {")
+
+# ---- C19 -------------------------------------------------------------------------------
+CLIM = "cli/src/main.rs"
+CLIP = "cli/src/progress.rs"
+mutant("c19-f6-default-2", "C19", "C19.exh.levels", CLIM, "            default_value_t = 1,", "            default_value_t = 2,")
+mutant("c19-level-2-mapped", "C19", "C19.exh.levels", CLIM, "        2..=4 => {\n            color_eyre::eyre::bail!(\"compression level {level} is not implemented yet (use 0 or 1)\")\n        }", "        2 => CompressionLevel::Default,\n        3..=4 => {\n            color_eyre::eyre::bail!(\"compression level {level} is not implemented yet (use 0 or 1)\")\n        }")
+mutant("c19-refuse-by-panic", "C19", "C19.exh.levels", CLIM, "        _ => {\n            color_eyre::eyre::bail!(\"unsupported compression level: {level}\")\n        }", "        _ => {\n            unimplemented!(\"unsupported compression level: {}\", level);\n        }")
+mutant("c19-create-before-table", "C19", "C19.dom.refuse-first", CLIM,
+       "    info!(\"compressing {input:?} to {output:?}\");\n    let compression_level", "    info!(\"compressing {input:?} to {output:?}\");\n    let _early = File::create(&output).wrap_err(\"failed to open output file for writing\")?;\n    let compression_level")
+mutant("c19-progress-short-buffer", "C19", "C19.prov.progress", CLIP, "        let out = self.reader.read(buf)?;", "        let n = buf.len().min(4096);\n        let out = self.reader.read(&mut buf[..n / 2 * 2])?;")
+mutant("c19-progress-count-changed", "C19", "C19.prov.progress", CLIP, "        self.update(out as u64);\n        Ok(out)", "        self.update(out as u64);\n        Ok(out.min(self.total))")
+mutant("c19-library-loses-fastest", "C19", "C19.exh.levels", FCOMP, "                CompressionLevel::Fastest => {\n                    compress_fastest(&mut self.state, last_block, uncompressed_data, output)\n                }", "                CompressionLevel::Fastest if read_bytes > 0 => {\n                    compress_fastest(&mut self.state, last_block, uncompressed_data, output)\n                }")
